@@ -13,6 +13,7 @@ import (
 	"io"
 	"os"
 	"os/exec"
+	"strings"
 	"sync"
 		"time"
 )
@@ -101,8 +102,8 @@ type Stats struct {
 // Explore runs the search level by level (cost 0, then 1, ...).
 func Explore(cfg Config) Stats {
 	st := Stats{LevelCompleted: -1, LevelExecs: make([]int64, cfg.Budget+1)}
-	levels := make([][]Job, cfg.Budget+1)
-	levels[0] = []Job{{Scenario: cfg.Scenario}}
+	levels := make([][]pending, cfg.Budget+1)
+	levels[0] = []pending{{root: &Job{Scenario: cfg.Scenario}}}
 	if cfg.Workers <= 0 {
 		cfg.Workers = 1
 	}
@@ -150,8 +151,8 @@ func Explore(cfg Config) Stats {
 						cond.Broadcast()
 						return
 					}
-					job := levels[level][head]
-					levels[level][head] = Job{}
+					job := levels[level][head].materialize()
+					levels[level][head] = pending{}
 					head++
 					active++
 					mu.Unlock()
@@ -197,7 +198,57 @@ func Explore(cfg Config) Stats {
 	return st
 }
 
-func expand(cfg Config, job Job, res Result, levels [][]Job) {
+// pending is a queued job in compact form: the children of one execution
+// share that execution's choice and label vectors and are materialized only
+// when dispatched (a family of 10^4 executions with 10^2 alternatives each
+// would otherwise hold 10^6 copied prefixes in memory).
+type pending struct {
+	root   *Job // the initial job
+	base   *expBase
+	i, alt int
+	cost   int
+	paid   bool   // the alternative has a positive cost: its label goes to Kinds, else to Picks
+	label  string // the alternative's label (interned)
+}
+
+// interned labels (labels repeat across executions; expand runs under the explorer's lock)
+var labelPool = map[string]string{}
+
+func intern(s string) string {
+	if v, ok := labelPool[s]; ok {
+		return v
+	}
+	s = strings.Clone(s)
+	labelPool[s] = s
+	return s
+}
+
+type expBase struct {
+	scenario     string
+	choices      []int
+	labels       []string
+	kinds, picks []string
+}
+
+func (p pending) materialize() Job {
+	if p.root != nil {
+		return *p.root
+	}
+	b := p.base
+	child := Job{Scenario: b.scenario, Cost: p.cost}
+	child.Prefix = append(append(make([]int, 0, p.i+1), b.choices[:p.i]...), p.alt)
+	child.Labels = append(append(make([]string, 0, p.i+1), b.labels[:p.i]...), p.label)
+	if p.paid {
+		child.Kinds = append(append([]string{}, b.kinds...), p.label)
+		child.Picks = b.picks
+	} else {
+		child.Kinds = b.kinds
+		child.Picks = append(append([]string{}, b.picks...), p.label)
+	}
+	return child
+}
+
+func expand(cfg Config, job Job, res Result, levels [][]pending) {
 	choices := make([]int, len(res.Points))
 	labels := make([]string, len(res.Points))
 	for i, p := range res.Points {
@@ -206,6 +257,7 @@ func expand(cfg Config, job Job, res Result, levels [][]Job) {
 			labels[i] = p.Labels[p.Chosen]
 		}
 	}
+	var base *expBase
 	for i := len(job.Prefix); i < len(res.Points); i++ {
 		p := res.Points[i]
 		for alt := 0; alt < len(p.Labels); alt++ {
@@ -219,17 +271,13 @@ func expand(cfg Config, job Job, res Result, levels [][]Job) {
 			if cfg.Allow != nil && !cfg.Allow(job, i, p.Labels[alt], c) {
 				continue
 			}
-			child := Job{Scenario: job.Scenario, Cost: c}
-			child.Prefix = append(append(make([]int, 0, i+1), choices[:i]...), alt)
-			child.Labels = append(append(make([]string, 0, i+1), labels[:i]...), p.Labels[alt])
-			if p.cost(alt) > 0 {
-				child.Kinds = append(append([]string{}, job.Kinds...), p.Labels[alt])
-				child.Picks = job.Picks
-			} else {
-				child.Kinds = job.Kinds
-				child.Picks = append(append([]string{}, job.Picks...), p.Labels[alt])
+			if base == nil {
+				for k := range labels {
+					labels[k] = intern(labels[k])
+				}
+				base = &expBase{scenario: job.Scenario, choices: choices, labels: labels, kinds: job.Kinds, picks: job.Picks}
 			}
-			levels[c] = append(levels[c], child)
+			levels[c] = append(levels[c], pending{base: base, i: i, alt: alt, cost: c, paid: p.cost(alt) > 0, label: intern(p.Labels[alt])})
 		}
 	}
 }
